@@ -6,7 +6,7 @@ CHECKS["C14"] = dict(
           "evaluated after every step so all shorter sequences are covered as prefixes) plus random sequences up to length 80 "
           "and capacity 12, against a reference deque with drop-oldest (pop/len results and the element reported as dropped); "
           "non-trivial = the ring wrapped, overflowed and was popped. dispatcher: rapid-generated mixes of "
-          "add/register(priority, run-in-add, self-/other-unregistering, event-spawning or event-deferring handlers - also while deferred events are being re-added)/unregister/defer/tick "
+          "add/register(priority, run-in-add, self-/other-unregistering, event-spawning or event-deferring handlers - also while deferred events are being re-added)/unregister/unregister-function-called-again/defer/tick "
           "against a reference dispatcher (FIFO, every registered handler exactly once, priority first, deferred events once, "
           "after the awaited type, in deferral order); non-trivial = >=2 deferred events delivered or an unregister during "
           "dispatch. concurrency (-race): P producers x M events with a running consumer (no loss, per-producer order) and "
